@@ -6,7 +6,8 @@
 From Coq Require Import ZArith List Bool Permutation.
 From Batchie Require Import Lib.Sexp Model.Encode Model.Screen Model.Retro Model.Pairwise Model.RetroHoldout
   Model.RetroInit Proofs.C11Lib Proofs.C11Gen Proofs.C11Smooth Proofs.C11Select Proofs.C11Holdout Proofs.C11Init
-  Generated.SrcRetro Proofs.C11Source Proofs.C13SampleSeg Proofs.C13SparseTerm Generated.SrcRetroGen Proofs.C13Source Proofs.C13SourcePairwise.
+  Generated.SrcRetro Proofs.C11Source Proofs.C11Source_Holdout Proofs.C13SampleSeg Proofs.C13SparseTerm Generated.SrcRetroGen Proofs.C13Source
+  Proofs.C13Source_Holdout Proofs.C13SourcePairwise.
 Import ListNotations.
 
 (* ---- the models are what the source says NOW ----
@@ -316,7 +317,8 @@ Qed.
    representation, are [combine_screens], [Retro.to_screen], [subset_of], [Retro.subset_unobserved] / [Retro.subset_observed],
    `forallb r_mask` and [vec_observed]: the meanings the configurations C11_* / C13_* gave to those calls. *)
 From Batchie Require Import Lib.PyRt Model.Views Generated.SrcViews Generated.SrcPlates
-  Proofs.C14Defs Proofs.C14ToScreen Proofs.C13SourceHelpers.
+  Proofs.C14Defs Proofs.C14ToScreen Proofs.C13SourceHelpers_Base Proofs.C13SourceHelpers_Combine Proofs.C13SourceHelpers_Subset
+  Proofs.C13SourceHelpers_SubsetObserved Proofs.C13SourceHelpers_Observed.
 
 (* primitive `__a.combine(__b)` -> [combine_screens] (the wrappers, PlatePermutation, Pairwise): on two valid screens of one
    arity and control name (both descend from one screen) the translated Screen.combine is refused (mixed plate, tag 2) exactly
